@@ -50,8 +50,13 @@ Print Assumptions C03_write_fault_local.
 (* The same with the client pinned down: the boolean property predicate that the
    correspondence run evaluates on the implementation's answers holds of the model
    (redirect only to the URI of the very request, registered for that request's client and
-   response type; missing / unknown-client / non-matching URI => error page). *)
-Theorem C03_spec_holds : forall i : input, spec i (model i) = true.
+   response type; missing / unknown-client / non-matching URI => error page). In the predicate
+   "loopback address" is the ground truth u_truth recorded per URI by a classifier that is independent
+   of the library (http / https and host exactly localhost, or an IP literal in 127.0.0.0/8 or ::1); the
+   model follows the library's HTTPLoopbackOrLocalhost (u_loop). Guard wf: the two agree on every URI
+   of the case. A case where they do not is still judged by spec (Example C03_wrong_loopback_flagged in
+   the proofs file: the model says accepted, the predicate says violated). *)
+Theorem C03_spec_holds : forall i : input, wf i = true -> spec i (model i) = true.
 Proof. exact spec_model. Qed.
 Print Assumptions C03_spec_holds.
 
